@@ -79,6 +79,8 @@ pub fn run_case(tree: &Snap, invocations: &[Vec<String>]) -> Vec<String> {
     let base = dir.path().join("w");
     std::fs::create_dir(&base).unwrap();
     materialise(&base, tree);
+    // something to hit outside of the working directory (C19)
+    std::fs::write(dir.path().join("outside"), b"sentinel\n").unwrap();
     let mut results = Vec::new();
     for (inv_no, inv) in invocations.iter().enumerate() {
         let (before, meta_before) = snapshot(&base);
@@ -113,10 +115,15 @@ pub fn run_case(tree: &Snap, invocations: &[Vec<String>]) -> Vec<String> {
             }
         }
         let same = before == after && meta_before == meta_after;
+        // nothing outside of the working directory may appear, disappear or change
+        let mut out_names: Vec<String> = std::fs::read_dir(dir.path()).unwrap().filter_map(|e| e.ok()).map(|e| e.file_name().to_string_lossy().into_owned()).collect();
+        out_names.sort();
+        let outside_ok = out_names == vec!["outside".to_string(), format!("twin{}", inv_no), "w".to_string()]
+            && std::fs::read(dir.path().join("outside")).map(|c| c == b"sentinel\n").unwrap_or(false);
         std::fs::remove_dir_all(&twin).unwrap();
-        results.push(format!("exit={};tree={};newino={};same={};twin={}", exit, render_tree(&after),
+        results.push(format!("exit={};tree={};newino={};same={};twin={};outside={}", exit, render_tree(&after),
             if newino.is_empty() { "-".to_string() } else { newino.join(",") }, same as u8,
-            if twin_changed.is_empty() { "ok".to_string() } else { twin_changed.join(",") }));
+            if twin_changed.is_empty() { "ok".to_string() } else { twin_changed.join(",") }, if outside_ok { "ok" } else { "changed" }));
     }
     results
 }
@@ -179,7 +186,12 @@ pub fn gen_options(rng: &mut Rng, threads: &[usize]) -> Vec<String> {
     match rng.below(8) { 0 => { o.push("--backup-count".into()); o.push("all".into()); } 1 => { o.push("--backup-count".into()); o.push("0".into()); }
         2 => { o.push("--backup-count".into()); o.push("1".into()); } 3 => { o.push("--backup-count".into()); o.push("2".into()); } _ => {} }
     if rng.chance(25) { o.push("-F".into()); o.push(rng.below(4).to_string()); }
-    match rng.below(4) { 0 => o.push("-q".into()), 1 => {}, 2 => o.push("-q".into()), _ => { o.push("-q".into()); } }
+    // presentation / loader options: never change the result (C14)
+    match rng.below(8) { 0 => {}, 1 => o.push("-v".into()), 2 => { o.push("-v".into()); o.push("-v".into()); } 3 => { o.push("-q".into()); o.push("-v".into()); } _ => o.push("-q".into()) }
+    if rng.chance(25) { o.push("--mmap".into()); }
+    if rng.chance(10) { o.push("--stats".into()); }
+    match rng.below(10) { 0 => { o.push("--color".into()); o.push("always".into()); } 1 => { o.push("--color".into()); o.push("never".into()); } _ => {} }
+    if rng.chance(10) { o.push("-A".into()); o.push("multiapply".into()); }
     o
 }
 
@@ -192,20 +204,86 @@ pub fn gen_goal(rng: &mut Rng, ws: &Workspace) -> Vec<String> {
     }
 }
 
+const EVIL: [&[u8]; 30] = [b"--- a/f\n", b"+++ b/f\n", b"--- /dev/null\n", b"+++ /dev/null\n", b"diff --git a/f b/f\n", b"index 12..34\n",
+    b"@@ -1,2 +1,2 @@\n", b"@@ -0,0 +1,2 @@\n", b"@@ -1 +1 @@\n", b"@@ -18446744073709551615,1 +1,1 @@\n", b"@@ -9223372036854775807,1 +1,1 @@\n",
+    b"@@ -9223372036854775808,1 +1,1 @@\n", b"@@ -1,18446744073709551615 +1,1 @@\n", b"@@ -9223372036854775807,0 +1,1 @@\n", b"@@ -1,1 +9223372036854775807,1 @@\n",
+    b" a\n", b"-a\n", b"+a\n", b"+b\n", b"-b\n", b" b\n", b"\\ No newline at end of file\n", b"garbage\n", b"+a", b"@@ -1,1", b"old mode 100644\n", b"new mode 100755\n",
+    b"rename from f\n", b"rename to g\n", b"@@ -3,1 +2,0 @@\n"];
+
+const UNSAFE_NAMES: [&str; 12] = ["../outside", "../../outside", "/tmp/rq-verif-outside", "a/../../outside", "./../outside", "..", "d/../../outside",
+    "\"\\056\\056/outside\"", "\"/tmp/rq-verif-outside\"", "x/../../outside", "", "../w/f"];
+
+fn mutate_state<R>(rng: &mut Rng, ws: &mut Workspace, _r: R) {
+    // .pc/applied-patches: prefix, longer, reordered, edited, garbage
+    let names = ws.names.clone();
+    let k = rng.below(names.len() + 1);
+    let mut applied: Vec<String> = names[..k].to_vec();
+    match rng.below(10) {
+        0 => applied.push("zz.patch".into()),
+        1 => { applied.extend(names[k..].iter().cloned()); applied.push("extra.patch".into()); }
+        2 => if applied.len() >= 2 { applied.swap(0, 1); },
+        3 => if !applied.is_empty() { let i = rng.below(applied.len()); applied[i] = format!("{}x", applied[i]); },
+        4 => applied = vec!["# only a comment".into()],
+        5 => applied = vec![format!("{} -R -R", names[0])],
+        6 => applied = names.iter().rev().cloned().collect(),
+        _ => {}
+    }
+    if rng.chance(80) || !applied.is_empty() {
+        let mut b = applied.join("\n").into_bytes();
+        if !b.is_empty() { b.push(b'\n'); }
+        ws.tree.insert(b".pc/applied-patches".to_vec(), Entry::File(0o644, b));
+    }
+    // break a patch file at some position
+    match rng.below(6) {
+        0 => { let i = rng.below(names.len()); ws.tree.remove(&format!("patches/{}", names[i]).into_bytes()); }
+        1 => { let i = rng.below(names.len()); ws.tree.insert(format!("patches/{}", names[i]).into_bytes(), Entry::File(0o644, b"--- a/f\n+++ b/f\n@@ -1,2 +1,2 @@\n a\n".to_vec())); }
+        2 => { let i = rng.below(names.len()); ws.tree.insert(format!("patches/{}", names[i]).into_bytes(), Entry::File(0o644, b"--- a/f\n+++ b/f\n@@ -1 +1 @@\nbogus\n".to_vec())); }
+        _ => {}
+    }
+}
+
 pub fn run<W: Write>(out: &mut W, seed: u64, n: usize, opts: &HashMap<String, String>) {
     std::fs::create_dir_all("/verif/build/tmp").unwrap();
     let threads: Vec<usize> = opts.get("threads").map(|s| s.split(',').map(|x| x.parse().unwrap()).collect()).unwrap_or(vec![1]);
     let max_inv: usize = opts.get("inv").and_then(|s| s.parse().ok()).unwrap_or(2);
+    let pct = |k: &str, d: u32| -> u32 { opts.get(k).and_then(|s| s.parse().ok()).unwrap_or(d) };
+    let (dry, evil, state, unsafe_) = (pct("dry", 8), pct("evil", 0), pct("state", 0), pct("unsafe", 0));
+    let max_patches: usize = opts.get("patches").and_then(|s| s.parse().ok()).unwrap_or(4);
     let mut rng = Rng::new(seed ^ 0x9u64);
     for id in 0..n {
         let rich = rng.chance(30);
-        let ws = gen_workspace(&mut rng, rich, 4, true);
+        let mut ws = gen_workspace(&mut rng, rich, max_patches, true);
+        if rng.chance(evil) {
+            // replace one patch by a sequence of syntactically meaningful lines with boundary numbers
+            let i = rng.below(ws.names.len());
+            let mut b = Vec::new();
+            for _ in 0..(1 + rng.below(8)) { b.extend_from_slice(EVIL[rng.below(EVIL.len())]); }
+            ws.tree.insert(format!("patches/{}", ws.names[i]).into_bytes(), Entry::File(0o644, b));
+        }
+        if rng.chance(unsafe_) {
+            let i = rng.below(ws.names.len());
+            let nm = UNSAFE_NAMES[rng.below(UNSAFE_NAMES.len())];
+            let side = rng.below(3);
+            let good = "a/f";
+            let (o, nn) = match side { 0 => (nm, good), 1 => (good, nm), _ => (nm, nm) };
+            let body: &[u8] = if rng.chance(50) { b"@@ -0,0 +1,1 @@\n+pwned\n" } else { b"@@ -1,1 +1,1 @@\n-sentinel\n+pwned\n" };
+            let mut b = if rng.chance(30) { format!("diff --git {} {}\n--- {}\n+++ {}\n", o, nn, o, nn).into_bytes() } else { format!("--- {}\n+++ {}\n", o, nn).into_bytes() };
+            b.extend_from_slice(body);
+            if rng.chance(30) { if let Some(Entry::File(_, old)) = ws.tree.get(&format!("patches/{}", ws.names[i]).into_bytes()) { let mut c = old.clone(); c.extend_from_slice(&b); b = c; } }
+            ws.tree.insert(format!("patches/{}", ws.names[i]).into_bytes(), Entry::File(0o644, b));
+            // any strip level
+            let series: Vec<u8> = ws.names.iter().enumerate().map(|(j, n)| if j == i { format!("{} -p{}\n", n, rng.below(3)) } else { format!("{}\n", n) }).collect::<String>().into_bytes();
+            ws.tree.insert(b"series".to_vec(), Entry::File(0o644, series));
+        }
+        if rng.chance(state) { mutate_state(&mut rng, &mut ws, ()); }
         let ninv = 1 + rng.below(max_inv);
         let mut invs = Vec::new();
         for _ in 0..ninv {
             let mut a = gen_options(&mut rng, &threads);
-            if rng.chance(8) { a.push("--dry-run".into()); }
-            a.extend(gen_goal(&mut rng, &ws));
+            if rng.chance(dry) { a.push("--dry-run".into()); }
+            let mut g = gen_goal(&mut rng, &ws);
+            if state > 0 && rng.chance(15) { g = vec![(*rng.pick(&["nosuch.patch", "p0.patchx", "18446744073709551615", "99"])).to_string()]; }
+            a.extend(g);
             invs.push(a);
         }
         emit(out, id, &ws.tree, &invs);
